@@ -278,6 +278,11 @@ def check(c):
         stoppers = [es2, es] if c["second_stopper"] == "before" else [es, es2]
         labels.append("second_stopper")
     cb_list = (stoppers + [ev, rec]) if c.get("stopper_first") else ([ev] + stoppers + [rec])
+    if len(c["vals"]) <= 6 and int(abs(c["vals"][0]) * 1000) % 3 == 0:
+        # re-entrant use: a further callback makes public library calls on the trained state (and trains another state) from inside the hooks
+        from vf import gen as _gen
+        cb_list = [_gen.busy_callback(hooks=("on_batch_end", "on_epoch_end", "on_epoch_start"))] + cb_list if len(c["vals"]) % 2 else cb_list + [_gen.busy_callback(hooks=("on_batch_end", "on_epoch_end"))]
+        labels.append("busy_callback")
     if c.get("stopper_first"):
         labels.append("stopper_listed_before_evaluator")
     nt_any = False
